@@ -103,8 +103,22 @@ def jAttrName : Option K → Json
   | none => Json.null
   | some k => Json.str k
 
-/-- the view is reported after step `i` (0-based) when `(i + 1) % every = 0` (`every = 0`: never)
-    and after the last step -/
+/-- how much of the state is reported after a step: 0 nothing, 1 light (the items), 2 everything.
+    `every = 1`: everything after every step ("all");  `every = 0`: everything after the last step
+    ("last");  `every = n ≥ 2`: light after every step, everything after every n-th and the last.
+    A rejected operation is always followed by the full view. -/
+def viewLevel (every i : Nat) (last rejected : Bool) : Nat :=
+  if last || rejected || every == 1 || (every != 0 && (i + 1) % every == 0) then 2
+  else if every == 0 then 0 else 1
+
+def Op.isRejected : Op K V → Bool
+  | .setUnhashable _ | .setBadKey _ _ _ | .badOperand => true
+  | _ => false
+
+def SOp.isRejected : SOp K V → Bool
+  | .setRefused _ | .rejected => true
+  | _ => false
+
 def traceMK (every : Nat) (keys : List K) (vals : List V) (tuples : List (List K)) (i : Nat) :
     St K V → Log K V → List (Op K V) → List Json × List Json
   | _, _, [] => ([], [])
@@ -112,9 +126,11 @@ def traceMK (every : Nat) (keys : List K) (vals : List V) (tuples : List (List K
     let m := step s op
     let p := specStep l op
     let t := traceMK every keys vals tuples (i + 1) m.1 p.1 ops
-    let v := (every != 0 && (i + 1) % every == 0) || ops.isEmpty
-    (Json.mkObj (("res", jRes m.2) :: (if v then viewModel m.1 keys vals tuples else [])) :: t.1,
-     Json.mkObj (("res", jRes p.2) :: (if v then viewSpec p.1 keys vals tuples else [])) :: t.2)
+    let v := viewLevel every i ops.isEmpty (Op.isRejected op)
+    (Json.mkObj (("res", jRes m.2) :: (if v == 2 then viewModel m.1 keys vals tuples
+        else if v == 1 then [("items", jPairs jKeys Json.int m.1.store)] else [])) :: t.1,
+     Json.mkObj (("res", jRes p.2) :: (if v == 2 then viewSpec p.1 keys vals tuples
+        else if v == 1 then [("items", jPairs jKeys Json.int (specItems p.1))] else [])) :: t.2)
 
 def viewSDModel (s : SD K V) (keys : List K) (vals : List V) (tuples : List (List K)) : List (String × Json) :=
   ("attrs", jPairs jAttrName Json.int s.attrs)
@@ -138,9 +154,15 @@ def traceSD (every : Nat) (keys : List K) (vals : List V) (tuples : List (List K
     let m := sdStep s op
     let p := sdSpecStep g op
     let t := traceSD every keys vals tuples (i + 1) m.1 p.1 ops
-    let v := (every != 0 && (i + 1) % every == 0) || ops.isEmpty
-    (Json.mkObj (("res", jRes m.2) :: (if v then viewSDModel m.1 keys vals tuples else [])) :: t.1,
-     Json.mkObj (("res", jRes p.2) :: (if v then viewSDSpec p.1 keys vals tuples else [])) :: t.2)
+    let v := viewLevel every i ops.isEmpty (SOp.isRejected op)
+    (Json.mkObj (("res", jRes m.2) :: (if v == 2 then viewSDModel m.1 keys vals tuples
+        else if v == 1 then [("items", jPairs jKeys Json.int m.1.mkd.store),
+                             ("attrs", jPairs jAttrName Json.int m.1.attrs),
+                             ("default", jRes (Res.ofDefault (sdDefault m.1)))] else [])) :: t.1,
+     Json.mkObj (("res", jRes p.2) :: (if v == 2 then viewSDSpec p.1 keys vals tuples
+        else if v == 1 then [("items", jPairs jKeys Json.int (specItems p.1.log)),
+                             ("attrs", jPairs Json.str Json.int p.1.attr),
+                             ("default", jRes (Res.ofDefault p.1.default))] else [])) :: t.2)
 
 def handle (entry : String) (j : Json) : Except String Json := do
   let keys ← getKeys (← field j "keys")
